@@ -22,10 +22,22 @@ Matches(p, n) ==
 
 BuiltIn(n) == n = "print"
 
-VARIABLES exact, pats
-vars == <<exact, pats>>
-Init == exact \in SUBSET Exact /\ pats \in SUBSET Patterns
+\* IgnoreFileVars: names provided from outside for the files of one directory only.  Three further files (one per
+\* directory) each read the three names below; an entry covers a file when its File string occurs in the file's path.
+Dirs == {"net/", "ui/", "core/"}
+FileNames == {"NetEnv", "UiEnv", "Shared"}
+FileEntries == {<<"net/", "NetEnv">>, <<"net/", "Shared">>, <<"ui/", "UiEnv">>, <<"ui/", "Shared">>}
+
+VARIABLES exact, pats, fvars
+vars == <<exact, pats, fvars>>
+Init == exact \in SUBSET Exact /\ pats \in SUBSET Patterns /\ fvars \in SUBSET FileEntries
 Next == UNCHANGED vars
+
+\* the names a file of directory d still has to see reported
+UndefinedIn(d) == {n \in FileNames : <<d, n>> \notin fvars}
+\* model facts: a list of one directory never excuses a read in another
+PerDirectory == \A d \in Dirs : \A n \in FileNames : (n \notin UndefinedIn(d)) => <<d, n>> \in fvars
+CoreSeesAll == UndefinedIn("core/") = FileNames
 
 Ignored(n) == n \in exact \/ \E p \in pats : Matches(p, n)
 Undefined == {i \in 1..Len(Names) : ~BuiltIn(Names[i]) /\ ~Ignored(Names[i])}
@@ -34,5 +46,7 @@ Undefined == {i \in 1..Len(Names) : ~BuiltIn(Names[i]) /\ ~Ignored(Names[i])}
 BuiltInNeverReported == \A i \in 1..Len(Names) : BuiltIn(Names[i]) => i \notin Undefined
 Monotone == \A i \in 1..Len(Names) : Ignored(Names[i]) => i \notin Undefined
 
-Emit == PrintT("@@J " \o ToJson([fam |-> "ignorelists", names |-> Names, exact |-> exact, pats |-> pats, undefined |-> Undefined]))
+Emit == PrintT("@@J " \o ToJson([fam |-> "ignorelists", names |-> Names, exact |-> exact, pats |-> pats, undefined |-> Undefined,
+                                 filevars |-> [d \in {"net/", "ui/"} |-> {e[2] : e \in {x \in fvars : x[1] = d}}],
+                                 undefin |-> [d \in Dirs |-> UndefinedIn(d)]]))
 =============================================================================
